@@ -352,6 +352,9 @@ func (h *hist) callback() (*httpserver.Config, error) {
 	case "N":
 		h.rec.Emit("CBN")
 		return nil, nil
+	case "O": // an error that wraps the exported sentinel: Reload's errors.Is(err, ErrOldConfig) takes it for "unchanged"
+		h.rec.Emit("CBO")
+		return nil, fmt.Errorf("scripted callback failure: %w", httpserver.ErrOldConfig)
 	}
 	k, _ := strconv.Atoi(v)
 	h.mu.Lock()
@@ -587,7 +590,7 @@ func (h *hist) variant(kind string, r *prng.R) (string, cfgSpec) {
 	c := cur
 	c.Routes = append([]rt{}, cur.Routes...)
 	switch kind {
-	case "same":
+	case "same", "errold": // errold: the callback fails with an error wrapping ErrOldConfig; nothing is delivered
 	case "perm":
 		if len(c.Routes) > 1 {
 			c.Routes = append(c.Routes[1:], c.Routes[0])
@@ -819,6 +822,8 @@ func (h *hist) run() {
 				h.next.Store("E")
 			case "nil":
 				h.next.Store("N")
+			case "errold":
+				h.next.Store("O")
 			default:
 				h.next.Store(strconv.Itoa(h.intern(nc)))
 			}
@@ -1097,6 +1102,7 @@ func fixedScripts() []hscript {
 		{Name: "repath-back", Steps: []hstep{run, rl("repath"), rl("same"), rl("back"), rl("routes"), rl("routes"), rl("routes"), stop}},
 		{Name: "cb-error", Steps: []hstep{run, rl("err"), rl("addr"), stop}},
 		{Name: "cb-nil", Steps: []hstep{run, rl("same"), rl("nil"), rl("same"), can}},
+		{Name: "cb-error-wrapping-errold", Steps: []hstep{run, rl("errold"), rl("addr"), rl("errold"), rl("same"), stop}},
 		{Name: "busy-addr", Steps: []hstep{run, rl("busy"), rl("same"), stop}},
 		{Name: "busy-then-free", Steps: []hstep{run, rl("addr"), rl("busy"), {Op: "ffree"}, stop}},
 		{Name: "boot-on-busy", Steps: []hstep{{Op: "fbind"}, run, rl("busy"), stop}},
@@ -1136,7 +1142,7 @@ func randomScript(r *prng.R, i int) hscript {
 		s.Kind = "fake"
 	}
 	kinds := []string{"same", "perm", "addr", "routes", "repath", "timeout", "drain", "idle", "write", "back", "err", "nil", "busy", "addr", "routes", "same",
-		"swap", "zeroto", "zeroone", "swap"}
+		"swap", "zeroto", "zeroone", "swap", "errold"}
 	switch r.Intn(8) {
 	case 0:
 		s.Steps = append(s.Steps, hstep{Op: "stop"})
